@@ -388,7 +388,9 @@ caf_read_header (SF_PRIVATE *psf)
 	{	marker = 0 ;
 		chunk_size = 0 ;
 
-		psf_binheader_readf (psf, "mE8", &marker, &chunk_size) ;
+		/* A chunk header that cannot be read completely is the end of the input. */
+		if (psf_binheader_readf (psf, "mE8", &marker, &chunk_size) != 12)
+			break ;
 		if (marker == 0)
 		{	sf_count_t pos = psf_ftell (psf) ;
 			psf_log_printf (psf, "Have 0 marker at position %D (0x%x).\n", pos, pos) ;
